@@ -39,8 +39,10 @@ def gen_scenario(rng, cfg):
             ops.append({"op": "exit", "job": rng.below(3), "member": rng.below(3)})
         elif k < 94:
             ops.append({"op": "jobs"})
-        elif k < 96:
+        elif k < 95:
             ops.append({"op": "empty"})
+        elif k < 96:
+            ops.append({"op": "detach", "job": rng.below(3)})
         elif k < 98:
             ops.append({"op": "notfound"})
         else:
@@ -336,6 +338,9 @@ class C07Runner:
             if k in ("sig", "exit"):
                 self.event_op(op)
                 continue
+            if k == "detach":
+                self.detach_op(op)
+                continue
             if self.type_op(op):
                 self.typed_pending = True
                 return
@@ -373,6 +378,11 @@ class C07Runner:
             bare = op.get("bare") and len(others) == 1
             line = k if bare else "%s %d" % (k, job.id)
             sim.ev("type", "%s %s" % (k, job.label()))
+            if k == "fg" and getattr(job, "detached", False):
+                # tcsetpgrp() to a vanished group fails: fg reports an error and returns
+                sim.probe("fg_with_failing_terminal_handover")
+                sh.type_line(line)
+                return True
             if k == "fg":
                 self.fg = job
                 self.fg_by_builtin = True
@@ -527,9 +537,15 @@ class C07Runner:
             raise Violation("stage_started_twice", "%s started as %r" % (m.name, m.pup.name))
         sim.ev("hello", m.name)
         self.check_group(m, job, m.pup.hello["pgrp"])
+        sig = m.pup.hello.get("sig", {})
+        blocked = [b for b in sig.get("blocked", []) if b in (2, 20, 21, 22)]
+        bad = [n for n in ("2", "20", "21", "22") if sig.get(n) not in (None, "dfl")]
+        if blocked or bad:
+            raise Violation("signal_disposition", "%s was started with job-control signals blocked %s / not default %s: "
+                            "Ctrl-Z and Ctrl-C cannot reach it" % (m.name, blocked, bad))
 
     def check_group(self, m, job, pgrp):
-        if getattr(job, "substitution", False):
+        if getattr(job, "substitution", False) or getattr(job, "detached", False):
             return
         if pgrp != job.gid:
             where = "the shell's own group" if pgrp == self.shell.pgid else "group %d" % pgrp
@@ -699,6 +715,23 @@ class C07Runner:
             sim.wait_state(m.pid, "ZX", "kill")
             self.mark_dead(m)
         self.wait_dirty = True
+
+    def detach_op(self, op):
+        """the only live member of a background job leaves its process group and session (setsid): the job's
+        group vanishes although the job is alive -- a later `fg` cannot hand the terminal over"""
+        job = self.job_by_slot(op["job"])
+        if job is None or job is self.fg or len(job.live()) != 1 or job.live()[0].pup is None:
+            return
+        m = job.live()[0]
+        if self.truth_state(m) in ("T", "Z", "X") or m.pid == job.gid and False:
+            return
+        rep = m.pup.rpc("setsid").split()
+        if rep[0] != "setsid" or int(rep[1]) < 0:
+            # a group leader cannot call setsid
+            return
+        self.sim.ev("detach", m.name)
+        self.sim.fault("member_left_its_group_setsid")
+        job.detached = True
 
     def wait_result(self, kind, pid, val):
         if kind == "alive":
